@@ -205,7 +205,8 @@ def _mesh_2d(check, proj, cls):
     lx, ly = A.sym("lx", positive=True), A.sym("ly", positive=True)
     it.np_hooks = {"builtin:slice": lambda args, kw: Family(A, it.lift(args[1]) - it.lift(args[0]), A.const(1), it.lift(args[0])),
                    "arange": lambda args, kw: Family(A, it.lift(args[0]), A.const(1), A.const(0)),
-                   "repeat": lambda args, kw: ("repeat", it.lift(args[0]), it.lift(args[1]))}
+                   "repeat": lambda args, kw: ("repeat", it.lift(args[0]), it.lift(args[1])),
+                   "full": lambda args, kw: ("repeat", it.lift(args[1]), it.lift(args[0]))}
     obj = SelfObj(cls, {})
     init = proj.resolve(cls, "__init__")
     given = {"nx": nx, "ny": ny, "lx": lx, "ly": ly}
@@ -224,7 +225,7 @@ def _mesh_2d(check, proj, cls):
         _decide(check, "MESH2D-VOL", q + ".vol", loc, A, vol[1], lx / nx * ly / ny, "cell volume == dx*dy", key="vol")
         _decide(check, "MESH2D-VOL", q + ".vol", loc, A, vol[2], nx * ny, "one volume per cell (nx*ny)", key="volcount")
     else:
-        check.undecided("MESH2D-VOL", q + ".vol", "vol() is not np.repeat(dx*dy, ncell)", loc)
+        check.undecided("MESH2D-VOL", q + ".vol", "vol() is not np.repeat(dx*dy, ncell) / np.full(ncell, dx*dy)", loc)
     # boundary tables: layout  i-face(i,j) = j*(nx+1)+i ;  j-face(i,j) = ny*(nx+1) + j*nx + i
     io = at.get("_io_bcfaces")
     ori = at.get("_bcfaces_orientation")
